@@ -2036,3 +2036,51 @@ def model_map(interp, args, kwargs, node):
     if any(c is None for c in cols):
         raise OutOfSubset('map over a symbolic-length iterable')
     return [interp.call(fn, list(xs), {}, node) for xs in zip(*[list(c) for c in cols])]
+
+
+# ---------------------------------------------------------------------------------------------
+# getattr(<real class>, <symbolic name>[, default]): which attribute of the class a name denotes is decided by the name
+# ---------------------------------------------------------------------------------------------
+class SClassAttr(Sym):
+    """The attribute `name` of a real class (or `default` when the class has none), for a symbolic name: only its kind can be asked for."""
+
+    def __init__(self, cls, name_term, default):
+        self.cls, self.name_term, self.default = cls, name_term, default
+
+    def names_where(self, pred):
+        import inspect as _inspect
+        return sorted(n for n in dir(self.cls) if pred(_inspect.getattr_static(self.cls, n)))
+
+
+def _model_getattr(interp, args, kwargs, node):
+    obj, name = args[0], args[1]
+    if isinstance(obj, type) and isinstance(name, SStr):
+        interp.ctx.use(A('python.getattr.class', 'getattr(cls, name, default) returns the class attribute of that name found along the method resolution order, else the default'))
+        return SClassAttr(obj, z3_of(name), args[2] if len(args) > 2 else None)
+    if not contains_sym_shallow(args):
+        return builtins.getattr(*args)
+    if isinstance(name, str):
+        return interp.getattr(obj, name, node)
+    raise OutOfSubset('getattr with a symbolic name on a non-class')
+
+
+def contains_sym_shallow(xs):
+    return any(isinstance(x, Sym) for x in xs)
+
+
+_model_getattr.always = False
+_MODELS[builtins.getattr] = _model_getattr
+
+_si_prev = sym_isinstance
+
+
+def sym_isinstance(interp, v, cls):   # noqa: F811
+    if isinstance(v, SClassAttr):
+        classes = cls if isinstance(cls, tuple) else (cls,)
+        names = v.names_where(lambda a: isinstance(a, classes))
+        hit = z3.Or(*[v.name_term == z3.StringVal(n) for n in names]) if names else z3.BoolVal(False)
+        # (when the class has no such attribute the default is what isinstance sees)
+        has = z3.Or(*[v.name_term == z3.StringVal(n) for n in dir(v.cls)])
+        dflt = isinstance(v.default, classes) if not isinstance(v.default, Sym) else False
+        return simplify_value(SBool(z3.If(has, hit, z3.BoolVal(bool(dflt)))))
+    return _si_prev(interp, v, cls)
